@@ -27,6 +27,10 @@ type C20Case struct {
 	Exit    string   `json:"exit"`    // how a healthy run is ended: ctrl-c ctrl-d
 	GOGC    string   `json:"gogc"`    // GOGC for the program ("" = default): any collector schedule must be fine
 	Busy    string   `json:"busy"`    // activity of a healthy run before it is ended: "" requests io-flood
+	// GoodLog configures a usable log file (not a fault): "" none, "flag"
+	// through -log, "env" through CURLREVSHELL_LOG.  Failures must still be
+	// reported to the operator, not only to that file.
+	GoodLog string `json:"good_log,omitempty"`
 }
 
 var allFaults = []string{"no-tty", "listen-syntax", "listen-unresolvable", "listen-port-range", "listen-in-use",
@@ -138,6 +142,15 @@ func runC20(t testing.TB, c C20Case) (key, what string, classes []string) {
 			args = append(args, "-ctrl-i", ip)
 			tokens["ctrli"] = []string{ip, "Ctrl+I"}
 		}
+	}
+	if c.GoodLog != "" && !has("log-missing-dir") && !has("log-is-dir") {
+		lp := filepath.Join(dir, "good-log.json")
+		if c.GoodLog == "env" {
+			env = append(env, "CURLREVSHELL_LOG="+lp)
+		} else {
+			args = append(args, "-log", lp)
+		}
+		classes = append(classes, "usable-log-file-configured")
 	}
 	tokens["listen"] = []string{listen, "listen"}
 	tokens["cache"] = []string{cache, "certificate"}
@@ -408,7 +421,15 @@ func c20Cases(thorough bool) []C20Case {
 			}
 			cs = append(cs, C20Case{TTY: tty, Faults: []string{f}, Flag: fl, Termios: toggles[n%len(toggles)], Exit: exits[n%2]})
 			n++
+			if faultClass(f) != "log" {
+				cs = append(cs, C20Case{TTY: tty, Faults: []string{f}, Flag: fl, Termios: toggles[n%len(toggles)], Exit: exits[n%2], GoodLog: []string{"flag", "env"}[n%2]})
+				n++
+			}
 		}
+	}
+	// healthy runs and informational flags with a usable log file
+	for i, fl := range []string{"", "", "-h", "-print-default-template", "-print-ctrl-i"} {
+		cs = append(cs, C20Case{TTY: true, Flag: fl, Exit: exits[i%2], GoodLog: []string{"flag", "env"}[i%2]})
 	}
 	// pairs
 	for i, a := range allFaults {
@@ -484,6 +505,7 @@ func TestC20Random(t *testing.T) {
 			}
 		}
 		c.GOGC = rapid.SampledFrom([]string{"", "", "1", "10"}).Draw(rt, "gogc")
+		c.GoodLog = rapid.SampledFrom([]string{"", "", "flag", "env"}).Draw(rt, "goodlog")
 		nf := rapid.IntRange(0, 2).Draw(rt, "nfaults")
 		seen := map[string]bool{}
 		for i := 0; i < nf; i++ {
